@@ -23,6 +23,16 @@ Definition parse_ops := parse_list parse_op.
 Definition print_ops := print_list print_op.
 Definition prunit (_ : unit) : list N := [45].
 
+(* The position argument of Ops / Op is a Go int.  The model's positions are nat, which cannot hold
+   2^63-1 in unary, so a position beyond the sequence is answered here without converting it:
+   [ops_go c k] is Panic "index" for every k >= length c, k <> 0 (C02_ops_out_of_range).  A negative
+   position makes Go panic in c[:k] (slice bounds out of range): same class. *)
+Definition parse_pos := parse_decZ.
+Definition ops_at (c : list Z) (k : Z) : outcome (list op) :=
+  if (k <? 0)%Z then Panic $"index"
+  else if (Z.of_nat (length c) <? k)%Z then Panic $"index"
+  else ops_go c (Z.to_nat k).
+
 Definition run (line : list N) : list N :=
   match split sp line with
   | [f; a] =>
@@ -38,11 +48,11 @@ Definition run (line : list N) : list N :=
       else if str_eqb f $"superset" then match pseq a, pseq b with
                                     | Some c, Some ts => print_outcome prunit (superset c ts)
                                     | _, _ => r_badcase end
-      else if str_eqb f $"ops" then match pseq a, parse_nat b with
-                                    | Some c, Some k => print_outcome print_ops (ops_go c k)
+      else if str_eqb f $"ops" then match pseq a, parse_pos b with
+                                    | Some c, Some k => print_outcome print_ops (ops_at c k)
                                     | _, _ => r_badcase end
-      else if str_eqb f $"op" then match pseq a, parse_nat b with
-                                    | Some c, Some k => print_outcome print_op (obind (ops_go c k) (fun l =>
+      else if str_eqb f $"op" then match pseq a, parse_pos b with
+                                    | Some c, Some k => print_outcome print_op (obind (ops_at c k) (fun l =>
                                                           match l with [] => Err $"notsum" | o :: _ => Ok o end))
                                     | _, _ => r_badcase end
       else r_badcase
